@@ -63,7 +63,7 @@ function gen1(rng, params, mode) {
   }
   // type names are arbitrary identifiers: names of Object.prototype members, names with `$` patterns
   if (multi && names.length && rng.chance(1, 6)) {
-    const from = rng.pick(names), to = rng.pick(["toString", "constructor", "hasOwnProperty", "valueOf", "Money$$Amount", "A$&B", "Pre$`x", "Post$'x"]);
+    const from = rng.pick(names), to = rng.pick(["toString", "constructor", "hasOwnProperty", "valueOf", "__proto__", "__proto__", "Money$$Amount", "A$&B", "Pre$`x", "Post$'x"]);
     const ren = (x) => { if (!Array.isArray(x)) return; if (head(x) === "ref" && x[1] === from) x[1] = to; x.forEach(ren); };
     env.forEach((e) => { if (e[0] === from) e[0] = to; ren(e[1]); }); rts.forEach(ren);
     names[names.indexOf(from)] = to;
@@ -95,7 +95,8 @@ export function makeRunner(rt_, mode) {
     const parsers = rtsSx.map((r, i) => cg.buildParserFromRuntype(makeBuilder(cg)(envSx, r).rt, "P" + i, false));
     const flat = parsers.map((p) => jsonOrThrow(() => p.schema()));
     const overrides = {};
-    for (const [name, idx] of ovSx) overrides[name] = parsers[Number(idx.s)];
+    // (own properties whatever the name: `overrides["__proto__"] = …` would set the prototype of the options object)
+    for (const [name, idx] of ovSx) Object.defineProperty(overrides, name, { value: parsers[Number(idx.s)], enumerable: true, configurable: true, writable: true });
     const ctx = new cg.SchemaPrintingContext({ refPathTemplate: tpl, definitionContainerKey: isAtom(keySx, "none") ? null : keySx, namedTypeSchemaOverrides: overrides });
     const calls = [];
     const data = { calls: [] };
